@@ -132,6 +132,11 @@ func (t *trzszTransfer) pipelineRecvHashAck(ctx context.Context, cancel context.
 	go func() {
 		defer close(matchChan)
 		matchStep := int64(0)
+		if size <= 0 {
+			// nothing to compare (empty source): no hash is sent, so no acknowledgement will ever come
+			matchChan <- matchStep
+			return
+		}
 		for ctx.Err() == nil {
 			hashAck, err := t.recvHashAck()
 			if err != nil {
